@@ -50,7 +50,11 @@ func shapes(s uint32, thorough bool) []shape {
 	add(prog.Op{Kind: "wtx", W: &pager.WTx{Frames: nil, Outcome: "rollback", Torn: 2}}, keep)
 	if s > 2 {
 		add(wtx([]uint32{1}, s-1, 0, "commit"), same(s-1))
+		// the last page is modified and spilled to the log, then freed: its frame lies beyond the commit size
+		add(wtx([]uint32{last, 1}, s-1, 0, "commit"), same(s-1))
 	}
+	// a page is appended and spilled, then freed again before the commit (grow and shrink inside one transaction)
+	add(wtx([]uint32{s + 1, 1}, s, 0, "commit"), keep)
 	if s > 256 {
 		t := ((s-1)/256)*256 - 56 // into the previous block, e.g. 257 -> 200, 513 -> 456
 		add(wtx([]uint32{1}, t, 0, "commit"), same(t))
